@@ -35,6 +35,12 @@ fn main() {
     }
     return;
   }
+  if args[1] == "c14-hist" {
+    return c14::hist_main(&args[2]);
+  }
+  if args[1] == "c14-conc" {
+    return c14::conc_main(&args[2]);
+  }
   if args[1] == "fmt" {
     // mc fmt <cddl-text>: parse, shape, format, re-parse (triage aid)
     let text = args[2].replace("\\n", "\n");
